@@ -39,9 +39,18 @@ Proof.
   - rewrite !(gh_evalJ k 2 x e Hs) by (try lia; assumption). apply Dx_comm. exact Hs.
 Qed.
 
-(* known finding F-GJ-SINGULAR-PANIC: on a singular system the DenseFloat64 path of Gauss-Jordan returns an
-   error, the generic path panics (binary64 run of the C04 model: 0/0 = NaN is how singularity is detected) *)
-Lemma gj_singular_refuted :
+(* singular systems (repaired in /repo 74e12ad; the generic path panicked before): at HEAD both the DenseFloat64
+   path and the generic path of Gauss-Jordan leave through "return errors.New(system is computationally
+   singular)".  The C04 model of HEAD has ONE outcome function for both paths: for every carrier, size, mask,
+   variant and input the outcome (Ok state / error kind) does not depend on the path flag. *)
+Lemma gj_outcome_path_independent A (N : Num A) (ut : bool) (n : nat) (msk : list bool) (s : M4.st) :
+  M4.gj_run N true ut n msk s = M4.gj_run N false ut n msk s.
+Proof. reflexivity. Qed.
+Lemma inverse_outcome_path_independent A (N : Num A) (mode : M4.inv_mode) (n : nat) (msk : list bool) (m : list (list A)) :
+  M4.m_inverse N true mode n msk m = M4.m_inverse N false mode n msk m.
+Proof. destruct mode; reflexivity. Qed.
+(* binary64 run of the C04 model on the former witness [[0]] (0/0 = NaN is how singularity is detected) *)
+Lemma gj_singular_agree :
   M4.gj_run NumF true false 1 [true] (M4.mkSt [[0%float]] [[1%float]] [1%float]) = M4.ErrSingular /\
-  M4.gj_run NumF false false 1 [true] (M4.mkSt [[0%float]] [[1%float]] [1%float]) = M4.PanicSingular.
+  M4.gj_run NumF false false 1 [true] (M4.mkSt [[0%float]] [[1%float]] [1%float]) = M4.ErrSingular.
 Proof. split; vm_compute; reflexivity. Qed.
